@@ -272,4 +272,26 @@ theorem pluginWF_removeNode_ok {s : State R} (n : String) (h : PluginWF s) (hnd 
     simp only [pRmNode_pnodes, sRmNode_pnodes, List.contains_eq_mem, List.mem_filter, decide_eq_true_eq]
     exact ⟨by simpa using hp, hm.2⟩
 
+/-- the repair establishes usage = Σ records on the repaired node and touches nothing else -/
+theorem inv_fixUsage (n : String) (s : State R) (h : Inv s) : Inv (fixUsage n s) := by
+  obtain ⟨h1, h2, h3⟩ := h
+  refine ⟨h1, h2, fun m => ?_⟩
+  show (if m = n then load s n else s.usage m) = load s m
+  by_cases hm : m = n
+  · subst hm; simp
+  · simp only [hm, if_false]; exact h3 m
+
+/-- **NodeResource (with or without fix) keeps `Inv`** -/
+theorem pres_nodeResource (n : String) (fix : Bool) : Pres (onSt Inv) (nodeResource (R := R) n fix) := by
+  unfold nodeResource
+  apply pres_bind (pres_readStep _ _); intro _
+  apply pres_bind (pres_readStep _ _); intro _
+  apply pres_bind
+  · cases fix
+    · exact pres_step _ _ _ (fun s h => h)
+    · exact pres_step _ _ _ (fun s h => inv_fixUsage n s h)
+  intro _
+  apply pres_bind (fun _ _ h => h); intro s
+  exact pres_forEach _ (fun _ _ => pres_bind (pres_attempt (pres_readStep _ _)) (fun _ => pres_pure _ _))
+
 end Eru.Cluster
